@@ -147,7 +147,9 @@ def neg(op, input, *args, **kwargs):
     if input.qtype.is_floating_point:
         # Neg is not supported for float8
         return op(input.dequantize(), *args, **kwargs)
-    out_data = op(input._data, *args, **kwargs)
+    # The opposite of the lowest integer value cannot be represented: use the highest value instead
+    info = dtype_info(input.qtype.dtype)
+    out_data = op(torch.clamp(input._data, min=-info.max), *args, **kwargs)
     return QBytesTensor(input.qtype, input.axis, input.size(), input.stride(), out_data, input._scale)
 
 
